@@ -89,6 +89,12 @@ FAMILIES = {
         'start': ('ref', 'S'),
         'S': ('right', ('expect', ('call', 'A', [])), ('alt', [('seq', [('call', 'A', []), ('str', '!')]), ('ref', 'A')])),
         'A': ('alt', [('seq', [('str', '('), ('ref', 'S'), ('str', ')')]), ('str', 'x')])}),
+    # ... and the same through a parameter: W(p) writes p() and p, W is handed the rule A
+    'empty-call-through-parameter': ('S', {
+        'start': ('ref', 'S'),
+        'S': ('right', ('expect', ('ref', 'A')), ('call', 'W', [('ref', 'A')])),
+        'W': None,
+        'A': ('alt', [('seq', [('str', '('), ('ref', 'S'), ('str', ')')]), ('str', 'x')])}),
     'opt-star': ('L', {
         'start': ('ref', 'L'),
         'L': ('alt', [('seq', [('ref', 'I'), ('str', ';')]), ('seq', [('ref', 'I'), ('str', ',')]), ('ref', 'I')]),
@@ -104,7 +110,11 @@ def family_input(name, n):
 
 def run_family(rec, name, depths):
     entry, rules = FAMILIES[name]
-    G = gast.simple_grammar(rules)
+    G = gast.simple_grammar({k: v for k, v in rules.items() if v is not None})
+    if name == 'empty-call-through-parameter':
+        G['stmts'].append(('rule', 'W', ['p'], ('right', ('expect', ('call', 'p', [])),
+                                                ('alt', [('seq', [('call', 'p', []), ('str', '!')]), ('ref', 'p')]))))
+    rules = {k: v for k, v in rules.items() if v is not None}
     b = diff.build(rec, G)
     if b is None:
         return
